@@ -29,6 +29,9 @@ V_ENSURES(g_ctx->curr_mod == V_OLD(g_ctx->curr_mod))                            
 V_ENSURES(V_IMP(V_OLD(g_evq->len) > 0, g_mod->stats.recv_msgs == V_OLD(g_mod->stats.recv_msgs) + V_OLD(g_evq->len)))                         /*@C02.received-counter-exact*/
 /* the delivered batch is released exactly once, after the handler returned */
 V_ENSURES(g.qfree_calls == V_OLD(g.qfree_calls) + 1 && __CPROVER_pointer_equals(g.qfree_arg, g_evq))                                                                /*@C04.batch-released-exactly-once*/
+/* ... and while the module is still pinned: the events' sources point back to their module (not reference counted), and the handler may have deregistered it --
+ * destroying them after the pin is dropped would run the source destructors on a module that is already gone */
+V_ENSURES(V_IMP(V_OLD(g_evq->len) > 0, g.qfree_at_unref == V_OLD(g.unref_calls)))                                                             /*@C04.events-destroyed-while-their-module-is-still-pinned*/
 ;
 
 #else                  /* as a callee of flush_pubsub_msgs(): only what the caller needs */
